@@ -35,6 +35,21 @@ Theorem C13_one_issuer_call_at_a_time : forall s, reachable s ->
 Proof. exact one_issuer_call_per_name. Qed.
 Print Assumptions C13_one_issuer_call_at_a_time.
 
+(** "the others wait for it": a goroutine woken from any of the three waits is in the set [lazy]
+    of program counters (it re-entered with loading disabled), that set is closed under its own
+    steps, and contains no program counter from which storage is read or the issuer called *)
+Theorem C13_waiters_do_not_repeat_the_work :
+  (forall s t th s' th', thread_step s t th AWake = Some s' -> thr s' t = Some th' -> lazy (t_pc th') = true) /\
+  (forall s t th a s' th', lazy (t_pc th) = true -> thread_step s t th a = Some s' ->
+     thr s' t = Some th' -> lazy (t_pc th') = true) /\
+  (forall p, lazy p = true ->
+     match p with
+     | PLoad | PObtain _ _ | PObtLoad _ | PRenLoad _ _ _ _ | PRenIssue _ _ _ _ | PRenReload _ _ _ => False
+     | _ => True
+     end).
+Proof. split; [exact wake_is_lazy|split; [exact lazy_closed|exact lazy_no_work]]. Qed.
+Print Assumptions C13_waiters_do_not_repeat_the_work.
+
 (** ** every waiting handshake is released as soon as the worker finishes *)
 
 (** invariant A.8: the channel a goroutine waits on is closed, or registered for its name with a
